@@ -349,7 +349,9 @@ func c15xyz(c *fw.Ctx, idx int) {
 		if dev == [3]float64{} {
 			dev[(ax+1)%3] = 1
 		}
-		sp := func() [3]float64 { return [3]float64{float64(r.Range(-3, 3)), float64(r.Range(-3, 3)), float64(r.Range(-3, 3))} }
+		sp := func() [3]float64 {
+			return [3]float64{float64(r.Range(-3, 3)), float64(r.Range(-3, 3)), float64(r.Range(-3, 3))}
+		}
 		a = sp()
 		b = lin(a, u, 1)
 		cc = lin(a, sp(), 1)
